@@ -275,6 +275,10 @@ func (m *Model) Step(l Line) Out {
 		return m.end(MustErr)
 	case B:
 		if k == HDR {
+			// a header carrying further indentation extends the dump's indentation
+			if len(l.Indent) > len(m.Indent) {
+				m.Indent = l.Indent
+			}
 			m.Gs = append(m.Gs, G{ID: l.ID, State: l.State})
 			m.St = H
 			return Out{Consume: true}
